@@ -3,6 +3,7 @@ CONSTANTS
   IMMS <- Q_IMMS
   CELLVALS <- Q_CELLVALS
   LAYOUTS <- Q_LAYOUTS
+  BLAKE_OFFS <- B_Q
   BUG = "none"
 INIT Init
 NEXT Next
